@@ -1141,6 +1141,8 @@ func c15Scenarios() []c15Scenario {
 		add("data-after-end-"+tn, true, tail, reqH("t1", true), id(c15D("q", msg, true), 1), respH, trailers, id(c15D("p", msg, true), 1))
 		add("response-unknown-stream-"+tn, true, tail, id(respH, 7), reqH("t1", true), id(trailers, 9), respH, trailers)
 		add("stream-after-goaway-"+tn, true, tail, reqH("t1", true), c15Frame{D: "p", T: "G", Last: 1, Code: 0}, id(reqH("t2", true), 3), respH, trailers)
+		add("reuse-after-client-rst-"+tn, true, tail, reqH("t1", false), id(c15R("q", 8), 1), reqH("t3", false), respH, trailers)
+		add("reuse-after-end-"+tn, true, tail, reqH("t1", true), respH, trailers, reqH("t3", true), respH, trailers)
 		add("open-"+tn, true, tail, reqH("t1", false), id(c15D("q", msg[:7], false), 1), respH, id(c15D("p", msg[:2], false), 1))
 	}
 	// connection errors while streams are open
